@@ -40,7 +40,14 @@ theorem C07_roundtrip (pre post : List Bytes) (tail : Bytes) (ran : Nat) (fails 
       = joinLines (pre ++ headerLine ran fails.length errs.length :: (fails ++ errs) ++ post) ++ tail := by
     rw [joinLines_append, joinLines_append]
   rw [e, splitLines_joinLines _ tail ?_ htail]
-  · exact parseLines_roundtrip pre post ran fails errs hpre hf he
+  · have hfh : findHeader (pre ++ headerLine ran fails.length errs.length :: (fails ++ errs) ++ post) =
+        some ((Int.ofNat ran, Int.ofNat fails.length, Int.ofNat errs.length), fails ++ errs ++ post) := by
+      have e' : pre ++ headerLine ran fails.length errs.length :: (fails ++ errs) ++ post
+          = pre ++ (headerLine ran fails.length errs.length :: (fails ++ errs ++ post)) := by simp
+      rw [e', findHeader_skip pre _ hpre]
+      simp only [findHeader, parseHeader_headerLine]
+    simp only [hfh]
+    exact parseLines_roundtrip pre post ran fails errs hpre hf he
   · intro l hl
     simp only [List.mem_append, List.mem_cons] at hl
     rcases hl with (hl | rfl | hl | hl) | hl
@@ -71,14 +78,30 @@ theorem C07_noise_after (pre post post' : List Bytes) (tail tail' : Bytes) (ran 
   rw [C07_roundtrip pre post tail ran fails errs hpre0 hpost0 htail hpre hf he,
     C07_roundtrip pre post' tail' ran fails errs hpre0 hpost0' htail' hpre hf he]
 
-/-- **C07_truncation** — a report cut at *any* byte offset (every strict prefix `p`), after any
-non-spoofing noise, is never used: the parent reports a communication error (and records an error
-for the layer) — never `ok` with partial data, never an exception. -/
-theorem C07_truncation (pre : List Bytes) (ran : Nat) (fails errs : List Bytes) (p s : Bytes)
+/-- full statement of the truncation clause (kept visible): a report cut at *any* byte offset (every
+strict prefix `p`), after any non-spoofing noise, is never used partially — the parent reports a
+communication error, or (only possible when the cut removed nothing but the final newline of a
+report without names) records exactly the child's complete data. -/
+def C07_truncation_full : Prop :=
+  ∀ (pre : List Bytes) (ran : Nat) (fails errs : List Bytes) (p s : Bytes),
+    (∀ l ∈ pre, 10 ∉ l) → (∀ l ∈ pre, parseHeader l = none) →
+    (∀ n ∈ fails, 10 ∉ n) → (∀ n ∈ errs, 10 ∉ n) → s ≠ [] → p ++ s = encodeReport ran fails errs →
+    parse (joinLines pre ++ p) = .commError ∨
+      (fails = [] ∧ errs = [] ∧ parse (joinLines pre ++ p) = .ok (Int.ofNat ran) [] [])
+
+/-- **C07_truncation_partial** — proved part of `C07_truncation_full`: a cut report yields a
+communication error — never an exception, never a name list — except that a cut *inside the header
+line* may be accepted as a report without names (the code accepts an unterminated last line as a
+header only if it announces no names).  Missing for the full statement: that the accepted number is
+the child's `ran` and that the child's lists were indeed empty (decimal-prefix arithmetic; monitored
+on the real parser at every byte offset by the correspondence). -/
+theorem C07_truncation_partial (pre : List Bytes) (ran : Nat) (fails errs : List Bytes) (p s : Bytes)
     (hpre0 : ∀ l ∈ pre, 10 ∉ l) (hpre : ∀ l ∈ pre, parseHeader l = none)
     (hf : ∀ n ∈ fails, 10 ∉ n) (he : ∀ n ∈ errs, 10 ∉ n)
     (hs : s ≠ []) (hp : p ++ s = encodeReport ran fails errs) :
-    parse (joinLines pre ++ p) = .commError := by
+    parse (joinLines pre ++ p) = .commError ∨
+      (p.length ≤ (headerLine ran fails.length errs.length).length ∧
+        ∃ x, parse (joinLines pre ++ p) = .ok x [] []) := by
   unfold encodeReport at hp
   obtain ⟨k, r, hk, hpk, t, ht⟩ := strictPrefix_joinLines _ p s hs hp
   have hnames : ∀ l ∈ fails ++ errs, 10 ∉ l := by
@@ -119,12 +142,32 @@ theorem C07_truncation (pre : List Bytes) (ran : Nat) (fails errs : List Bytes) 
     simp [joinLines_append]
   rw [e, splitLines_joinLines _ r ?_ hr]
   · simp only []
-    unfold parseLines
-    rw [findHeader_skip pre _ hpre]
     cases k with
-    | zero => simp [findHeader]
+    | zero =>
+      have hnone : findHeader (pre ++ List.take 0 (headerLine ran fails.length errs.length :: (fails ++ errs))) = none := by
+        simpa using findHeader_none pre hpre
+      simp only [hnone]
+      have hplen : p.length ≤ (headerLine ran fails.length errs.length).length := by
+        have h1 : (r ++ t).length = (headerLine ran fails.length errs.length).length := by rw [ht]; simp
+        rw [hpk]
+        simp only [List.take_zero, joinLines, List.flatMap_nil, List.nil_append]
+        simp only [List.length_append] at h1
+        omega
+      unfold parseTail
+      split
+      · split
+        · exact Or.inr ⟨hpk ▸ hplen, _, rfl⟩
+        · exact Or.inl rfl
+      · exact Or.inl rfl
     | succ k =>
-      simp only [List.take_succ_cons, findHeader, parseHeader_headerLine]
+      left
+      have hfh : findHeader (pre ++ List.take (k + 1) (headerLine ran fails.length errs.length :: (fails ++ errs))) =
+          some ((Int.ofNat ran, Int.ofNat fails.length, Int.ofNat errs.length), (fails ++ errs).take k) := by
+        rw [findHeader_skip pre _ hpre]
+        simp only [List.take_succ_cons, findHeader, parseHeader_headerLine]
+      simp only [hfh]
+      unfold parseLines
+      simp only [hfh]
       have hx : ∀ n : Nat, (Int.ofNat n).toNat = n := fun _ => rfl
       have hlt : ((fails ++ errs).take k).length < (Int.ofNat fails.length).toNat + (Int.ofNat errs.length).toNat := by
         simp only [List.length_cons, List.length_append] at hk
@@ -142,10 +185,11 @@ theorem C07_spawn_failure (stderr : Bytes) : parentOutcome true stderr = .commEr
 
 /-- only noise (no line parses as a header): an error is recorded -/
 theorem C07_no_report (pre : List Bytes) (tail : Bytes) (hpre0 : ∀ l ∈ pre, 10 ∉ l) (htail : 10 ∉ tail)
-    (hpre : ∀ l ∈ pre, parseHeader l = none) : parse (joinLines pre ++ tail) = .commError := by
+    (hpre : ∀ l ∈ pre, parseHeader l = none) (htl : parseHeader tail = none) :
+    parse (joinLines pre ++ tail) = .commError := by
   unfold parse
   rw [splitLines_joinLines pre tail hpre0 htail]
-  simp [parseLines, findHeader_none pre hpre]
+  simp [findHeader_none pre hpre, parseTail, htl]
 
 /-- D10 (known finding): the guard `hpre` of `C07_roundtrip` is needed — a noise line of three ints
 before the report is taken as the header and the real failure is lost. -/
@@ -156,5 +200,10 @@ theorem C07_spoof_witness :
 example : parse (joinLines [[119, 97, 114, 110]] ++ encodeReport 3 [[97, 32, 98]] [[195, 169]] ++ [120])
     = .ok 3 [[97, 32, 98]] [[195, 169]] := by decide
 example : Clean [97, 32, 98] ∧ Clean [195, 169] := by unfold Clean; decide
+
+-- the unterminated header without names is accepted, one that announces names is not
+example : parse [51, 32, 48, 32, 48] = .ok 3 [] [] := by decide
+example : parse [51, 32, 49, 32, 48] = .commError := by decide
+example : parse ([51, 32, 49, 32, 48, 10] ++ [102]) = .commError := by decide
 
 end Ztr.Channel
